@@ -56,6 +56,7 @@ with pat :=
 | PTup (attrs : list (name * pitem))
 | PDict (entries : list (expr * pitem))
 | PSet (items : list pitem)
+| PExprs (es : list expr)          (* (e1, e2, ..): the value equals one of the alternatives (rel/pattern_expr.go ExprsPattern) *)
 with pitem :=
 | PItem (p : pat) (fallback : option expr)
 | PExtra (x : option name).
@@ -723,6 +724,14 @@ Definition bindF (ev : env -> expr -> res value) (bind : env -> pat -> value -> 
                end) items l None
         | _ => Err
         end
+    | PExprs es =>
+        (* ExprsPattern.Bind: the alternatives are evaluated in order in the enclosing scope; the first equal one matches *)
+        do b <- as_data v;
+        (fix go (es : list expr) : res env :=
+           match es with
+           | [] => Err
+           | e :: es' => do w <- ev rho e; do a <- as_data w; if veqb a b then Ok [] else go es'
+           end) es
     end.
 
 Fixpoint eval (fuel : nat) (rho : env) (e : expr) {struct fuel} : res value :=
